@@ -217,6 +217,7 @@ class ModuleEnv:
         self.imports = dict()      # alias -> ('module', rel) | ('name', rel, name) | ('ext', dotted)
         self.defs    = dict()      # name -> ast def
         self._values = dict()
+        self.nonconst = set()
         self._pure   = None
         if os.path.basename(rel) in _PURE_MODULES:
             self._pure = runpy.run_path(pkg_path(rel))
@@ -237,6 +238,13 @@ class ModuleEnv:
                                 self.assigns[tt.id] = vv
             elif isinstance(n, (ast.FunctionDef, ast.ClassDef)):
                 self.defs[n.name] = n
+            elif isinstance(n, (ast.If, ast.For, ast.While, ast.Try, ast.With)):
+                # names (re)assigned conditionally at module level are not
+                # constants
+                for sub in ast.walk(n):
+                    if isinstance(sub, ast.Name) and \
+                       isinstance(sub.ctx, ast.Store):
+                        self.nonconst.add(sub.id)
             elif isinstance(n, ast.Import):
                 for a in n.names:
                     self.imports[a.asname or a.name.split('.')[0]] = \
@@ -278,6 +286,8 @@ class ModuleEnv:
             v = self._pure[name]
             if _is_const(v):
                 val = v
+        elif name in self.nonconst:
+            val = Unknown('%s (assigned conditionally at module level)' % name)
         elif name in self.assigns:
             self._values[name] = Unknown(name)        # recursion guard
             try:
